@@ -1,20 +1,21 @@
-use delaunay::core::delaunay_triangulation::{ConstructionOptions, DedupPolicy, DelaunayTriangulation};
+use delaunay::geometry::traits::coordinate::Coordinate;
+use delaunay::core::delaunay_triangulation::{ConstructionOptions, DedupPolicy, InsertionOrderStrategy, RetryPolicy, InitialSimplexStrategy};
 use delaunay::core::triangulation::TopologyGuarantee;
 use delaunay::core::vertex::Vertex;
-use delaunay::geometry::kernel::FastKernel;
 use delaunay::geometry::point::Point;
-use delaunay::geometry::traits::coordinate::Coordinate;
 fn main() {
-    let pts: Vec<[f64; 2]> = vec![[0.,0.],[4.,0.],[0.,4.],[3.,3.],[1.,2.]];
-    let vs: Vec<Vertex<f64, i32, 2>> = pts.iter().enumerate().map(|(i, p)| Vertex::new_with_uuid(Point::new(*p), uuid::Builder::from_random_bytes((1000u128 + i as u128).to_le_bytes()).into_uuid(), Some(i as i32))).collect();
-    for tol in [1e-12, 1e-9, 1e-6] {
-        let o = ConstructionOptions::default().with_dedup_policy(DedupPolicy::Epsilon { tolerance: tol });
-        let mut dt = DelaunayTriangulation::<FastKernel<f64>, i32, i32, 2>::with_topology_guarantee_and_options(&FastKernel::new(), &vs, TopologyGuarantee::PLManifold, o).unwrap();
-        for dx in [0.0, 5e-11, 2e-10] {
-            let mut d2 = dt.clone();
-            let v = Vertex::new_with_uuid(Point::new([1.0 + dx, 2.0]), uuid::Builder::from_random_bytes((2000u128).to_le_bytes()).into_uuid(), Some(99));
-            println!("tol={tol:e} dx={dx:e}: {:?}", d2.insert(v).map(|_| "Inserted").map_err(|e| format!("{e}").chars().take(50).collect::<String>()));
+    let pts: Vec<[f64; 3]> = vec![[3.,0.,0.],[2.,1.,2.],[-1.,2.,-2.],[-1.,2.,2.],[1.,-2.,2.],[-2.,-1.,2.],[0.,-3.,0.],[2.,-1.,-2.],[-1.,-2.,-2.],[2.,-1.,2.],[2.,-2.,-1.]];
+    let us = ["21a276c4-0bd0-4620-aa74-4f557dd315dd","0cf3b0fc-43bd-4e71-aa6d-cf59ab6b4b21","b09fe126-0bd9-47bc-9664-190ef6d7e524","ae471cd5-5ae6-44ce-a138-c3ebf6739ade","4f16c62b-7318-4fc4-a593-fca5f5ecc9e6","750a5496-694f-41fc-bb84-7f8387e7ab53","b524f00f-9ff8-4aef-a3db-d870d80f90f8","5f14dc8b-0140-4af1-aa2d-1b51f814e103","f47d8b22-9666-42b2-94ca-79fe84d5c417","249a7f86-7b0e-4a69-b534-25c08d398aeb","7c7bedbe-f5e3-4825-80ff-0ed06b207f1f"];
+    let vs: Vec<Vertex<f64, i32, 3>> = pts.iter().enumerate().map(|(i, p)| Vertex::new_with_uuid(Point::new(*p), uuid::Uuid::parse_str(us[i]).unwrap(), Some(100 + i as i32))).collect();
+    let three = std::num::NonZeroUsize::new(3).unwrap();
+    for g in [TopologyGuarantee::Pseudomanifold, TopologyGuarantee::PLManifold] {
+        for (rn, rp) in [("debugonly", RetryPolicy::DebugOnlyShuffled { attempts: three, base_seed: None }), ("disabled", RetryPolicy::Disabled)] {
+            let o = ConstructionOptions::default().with_dedup_policy(DedupPolicy::Off).with_insertion_order(InsertionOrderStrategy::Morton).with_initial_simplex_strategy(InitialSimplexStrategy::First).with_retry_policy(rp.clone());
+            let r = delaunay::core::builder::DelaunayTriangulationBuilder::from_vertices(&vs).topology_guarantee(g).construction_options(o).build::<i32>();
+            match r {
+                Ok(dt) => println!("{g:?} {rn}: Ok cells={} tri.is_valid={:?} validate={:?}", dt.number_of_cells(), dt.as_triangulation().is_valid().map_err(|e| format!("{e}").chars().take(200).collect::<String>()), dt.validate().map_err(|e| format!("{e}").chars().take(60).collect::<String>())),
+                Err(e) => println!("{g:?} {rn}: Err {}", format!("{e}").chars().take(80).collect::<String>()),
+            }
         }
-        let _ = &mut dt;
     }
 }
